@@ -74,12 +74,15 @@ ItemHas(it, c, f) ==
   IF it.lo = -1 THEN ShHas(it.hi, c)            \* the shorthand sets are closed under ASCII case
   ELSE IF f.i THEN \E v \in {c, UpperAscii(c), LowerAscii(c)} : it.lo <= v /\ v <= it.hi
   ELSE it.lo <= c /\ c <= it.hi
-UnitOK(a, c, f) ==
+UnitOK(a, c, f, devs) ==
   CASE a.t = "chr" -> Canon(a.c, f) = Canon(c, f)
     [] a.t = "any" -> f.s \/ c \notin LineTerm
     [] a.t = "sh"  -> ShHas(a.c, c)
-    [] a.t = "cls" -> LET hit == \E k \in 1..Len(a.items) : ItemHas(a.items[k], c, f)
-                      IN IF a.neg THEN ~hit ELSE hit
+    [] a.t = "cls" -> IF a.neg /\ f.i /\ "Dev_NegClassIgnoreCase" \in devs
+                      THEN \* as-is (regex/vm.py RANGE_NEG): only the lower-cased unit is looked up in the ranges
+                           ~(\E k \in 1..Len(a.items) : ItemHas(a.items[k], LowerAscii(c), NoFlags))
+                      ELSE LET hit == \E k \in 1..Len(a.items) : ItemHas(a.items[k], c, f)
+                           IN IF a.neg THEN ~hit ELSE hit
     [] OTHER -> FALSE
 IsWordAt(s, e) == e >= 1 /\ e <= Len(s) /\ IsWordUnit(s[e])        \* the unit *before* position e is s[e]
 
@@ -111,7 +114,7 @@ M(a, st, d, cx) ==
   CASE a.t = "eps" -> <<st>>
     [] a.t \in {"chr", "any", "cls", "sh"} ->
          LET p == IF d = 1 THEN st.e + 1 ELSE st.e                 \* 1-based index of the unit looked at
-         IN IF p >= 1 /\ p <= Len(cx.s) /\ UnitOK(a, cx.s[p], cx.f) THEN <<St(st.e + d, st.c)>> ELSE <<>>
+         IN IF p >= 1 /\ p <= Len(cx.s) /\ UnitOK(a, cx.s[p], cx.f, cx.devs) THEN <<St(st.e + d, st.c)>> ELSE <<>>
     [] a.t = "bol" -> IF "Dev_BolMEnd" \in cx.devs
                       THEN \* as-is (regex/vm.py LINE_START_M): never at the end of the input
                            (IF st.e = 0 \/ (cx.f.m /\ st.e < Len(cx.s) /\ cx.s[st.e] \in LineTerm) THEN <<st>> ELSE <<>>)
@@ -140,7 +143,14 @@ M(a, st, d, cx) ==
                      IN IF a.neg THEN (IF rs = <<>> THEN <<st>> ELSE <<>>)
                         ELSE (IF rs = <<>> THEN <<>> ELSE <<St(st.e, rs[1].c)>>)
     [] a.t = "lb" ->
-         IF "Dev_LbForward" \in cx.devs
+         IF "Dev_LbForwardCaptures" \in cx.devs
+         THEN \* residual as-is rule once the sub-matchers share the main loop (proposed_fixes/C09-lookaround-one-loop): for
+              \* start = e, e-1, .., 0 run the body *forward*; the first result (in priority order) that ends at e wins, its captures stay
+              LET Ends(b) == SelectSeq(M(a.x[1], St(b, st.c), 1, cx), LAMBDA r : r.e = st.e)
+                  hits == {b \in 0..st.e : Ends(b) # <<>>}
+              IN IF hits = {} THEN (IF a.neg THEN <<st>> ELSE <<>>)
+                 ELSE (IF a.neg THEN <<>> ELSE <<St(st.e, Ends(SetMax(hits))[1].c)>>)
+         ELSE IF "Dev_LbForward" \in cx.devs
          THEN \* as-is (regex/vm.py _execute_lookbehind): for start = e, e-1, .., 0 run the body *forward*
               \* from start, look only at its first result, succeed iff that one ends at e; captures dropped
               LET hit == \E b \in 0..st.e : LET rs == M(a.x[1], St(b, [k \in 1..Len(st.c) |-> NoCap]), 1, cx)
@@ -192,6 +202,10 @@ OptChain(b, gs, g, n, sts, d, cx) == IF n = 0 THEN sts ELSE OptChain(b, gs, g, n
 
 \* ---- where the engine's matcher is known to deviate (structural predicates used by the judges) ---------------
 \* exact as-is rules are switched on through cx.devs above; these say on which trees each of them can matter
+RECURSIVE HasNegClass(_)
+HasNegClass(a) == \/ a.t = "cls" /\ a.neg
+                  \/ a.t \in Unary /\ HasNegClass(a.x[1])
+                  \/ a.t \in Binary /\ (HasNegClass(a.x[1]) \/ HasNegClass(a.x[2]))
 RECURSIVE RepsIn(_)
 RepsIn(a) == (IF a.t = "rep" THEN {<<a.min, a.max, NeedsAdv(a.x[1])>>} ELSE {})
              \cup (IF a.t \in Binary THEN RepsIn(a.x[1]) \cup RepsIn(a.x[2]) ELSE IF a.t \in Unary THEN RepsIn(a.x[1]) ELSE {})
@@ -199,8 +213,9 @@ Applicable(a, f) ==
   (IF \E r \in RepsIn(a) : ~(r[1] = 0 /\ r[2] = 1) /\ ~(r[1] <= 1 /\ r[2] = -1) THEN {"Dev_CountedUnroll"} ELSE {})
   \cup (IF \E r \in RepsIn(a) : r[1] >= 1 /\ r[2] = -1 /\ r[3] THEN {"Dev_PlusAdvance"} ELSE {})
   \cup (IF \E r \in RepsIn(a) : r[1] = 0 /\ r[2] = 1 THEN {"Dev_OptionalEmpty"} ELSE {})
-  \cup (IF "lb" \in Kinds(a) THEN {"Dev_LbForward"} ELSE {})
+  \cup (IF "lb" \in Kinds(a) THEN {"Dev_LbForward", "Dev_LbForwardCaptures"} ELSE {})
   \cup (IF "bol" \in Kinds(a) /\ f.m THEN {"Dev_BolMEnd"} ELSE {})
+  \cup (IF f.i /\ HasNegClass(a) THEN {"Dev_NegClassIgnoreCase"} ELSE {})
 \* ... and input-class deviations for the two sub-matchers, which skip the opcodes they do not know
 \* (regex/vm.py _execute_lookahead: only CHAR, DOT, SAVE_START/END, SPLIT, JUMP, MATCH are interpreted)
 RECURSIVE SubOK(_, _, _)
@@ -227,13 +242,14 @@ Fwd(a, n) == IF a.t = "bref" THEN [bad |-> a.n > n, n |-> n]
              ELSE IF a.t \in Binary THEN LET l == Fwd(a.x[1], n)  r == Fwd(a.x[2], l.n) IN [bad |-> l.bad \/ r.bad, n |-> r.n]
              ELSE [bad |-> FALSE, n |-> n]
 \* a lookaround body with a loop that relies on CHECK_ADVANCE (which the sub-matchers skip): spins until the stack limit
-RECURSIVE HasSpin(_), SpinBad(_)
-HasSpin(a) == \/ a.t = "rep" /\ a.max = -1 /\ NeedsAdv(a.x[1])
-              \/ a.t \in Unary /\ HasSpin(a.x[1])
-              \/ a.t \in Binary /\ (HasSpin(a.x[1]) \/ HasSpin(a.x[2]))
-SpinBad(a) == \/ a.t \in {"la", "lb"} /\ HasSpin(a.x[1])
-              \/ a.t \in Unary /\ SpinBad(a.x[1])
-              \/ a.t \in Binary /\ (SpinBad(a.x[1]) \/ SpinBad(a.x[2]))
+RECURSIVE HasSpin(_, _, _), SpinBad(_, _)
+\* a loop whose body consumes nothing *as the sub-matcher executes it* (it can match empty, or it is an opcode the sub-matcher skips)
+HasSpin(a, f, kind) == \/ a.t = "rep" /\ a.max = -1 /\ (NeedsAdv(a.x[1]) \/ ~SubOK(a.x[1], f, kind))
+                       \/ a.t \in Unary /\ HasSpin(a.x[1], f, kind)
+                       \/ a.t \in Binary /\ (HasSpin(a.x[1], f, kind) \/ HasSpin(a.x[2], f, kind))
+SpinBad(a, f) == \/ a.t \in {"la", "lb"} /\ HasSpin(a.x[1], f, a.t)
+                 \/ a.t \in Unary /\ SpinBad(a.x[1], f)
+                 \/ a.t \in Binary /\ (SpinBad(a.x[1], f) \/ SpinBad(a.x[2], f))
 
 \* ---- match attempts ---------------------------------------------------------------------------
 NoMatch == [ok |-> FALSE, index |-> -1, end |-> -1, caps |-> <<>>]
